@@ -1,4 +1,5 @@
 #![allow(dead_code)]
+mod conformance;
 mod driver;
 mod engine;
 mod gen;
@@ -46,6 +47,7 @@ fn main() {
             )
         }
         Some("replay") if args.len() >= 3 => driver::replay_main(Path::new(&args[2])),
+        Some("conformance") => conformance::main(),
         Some("list") => {
             for id in spec::all_property_ids() {
                 println!("{id}");
